@@ -107,6 +107,24 @@ MENU = [
 ]
 
 
+# Configurations that quick ALSO executes with one freshly forked process per history (and compares
+# with the in-process-reset execution): one per election / dependency / mismatch / conflict mechanism.
+XCHECK_QUICK = [
+    ('env12', (F('d1', 'A', '1.9'), F('d2', 'A', '1.10'), F('d1', 'A', '1.x'))),            # 1.9 < 1.10, non-numeric ignored
+    ('env12', (F('d1', 'A', '2'), F('d2', 'A', '2.0'), F('d2', 'A', '1.9'))),               # 2 == 2.0: earliest directory
+    ('env12', (F('d1', 'A', '2.0', inner='Z-2.0'), F('d2', 'A', '1.10'))),                  # inner namespace mismatch
+    ('env12', (F('d1', 'A', '2.0', 'B-1.9'), F('d1', 'B', '1.9', 'C-2.0'))),                # dependency of a dependency missing
+    ('env12', (F('d1', 'B', '1.9', 'C-2.0'), F('d2', 'B', '1.9'), F('d1', 'C', '2.0'))),    # exact version: first directory
+    ('pre12', (F('d1', 'A', '1.10'), F('d2', 'A', '1.10'), F('d3', 'A', '1.10'))),          # later prepend wins
+    ('env12', (F('d1', 'A', '1.10'), F('d2', 'A', '1.10'), F('d3', 'A', '1.10'))),          # environment order
+    ('env12', (F('d1', 'A', '2.0', 'B-1.9'), F('d2', 'B', '1.9'), F('d2', 'B', '2'))),      # dependency at recorded version, conflicts
+    ('env12', (F('d1', 'A', '2.0', 'B-1.9'), F('d1', 'B', '1.9', 'C-2.0'), F('d2', 'C', '2.0'))),   # transitive closure
+    ('pre12', (F('d1', 'A', '2'), F('d2', 'A', '2.0'), F('d3', 'A', '2.0', inner='A-3.0'))),        # inner version mismatch
+    ('env12', (F('d2', 'A', '2', 'B-1.9+C-2.0'), F('d2', 'B', '2'), F('d2', 'C', '2.0'))),  # one of two dependencies fails
+    ('pre12', (F('d2', 'A', '2.0', 'B-1.9'), F('d2', 'B', '1.9'), F('d3', 'B', '1.9', 'C-2.0'))),   # private require with deps
+]
+
+
 def op_text(op):
     k = op[0]
     if k == 'p':
@@ -690,6 +708,9 @@ class Runner(object):
         self.wd = tools.workdir(tag)
         self.n = 0
         self.blobs = {}
+        self.fallbacks = 0
+        self.last_mode = None
+        self.last_stderr = ''
 
     def blob(self, key):
         d = self.blobs.get(key)
@@ -717,7 +738,11 @@ class Runner(object):
         for i, h in enumerate(histories):
             out.append('H %d' % i)
             out.extend(pre)
-            for op in h:
+            # the observation is requested after the last operation (every edge / sequence prefix is the
+            # last step of its own history) and after interior steps whose outcome leaves part of the
+            # state open in the model (failed dependency load), where it is needed to go on comparing
+            st = cfg.initial()
+            for j, op in enumerate(h):
                 k = op[0]
                 if k == 'p':
                     out.append('p %s/%s' % (root, op[1]))
@@ -727,18 +752,36 @@ class Runner(object):
                     out.append('q %s/%s %s %s %d' % (root, op[1], op[2], op[3] or '-', op[4]))
                 elif k == 'm':
                     out.append('m %s %d' % (op[1], op[2]))
+                if j == len(h) - 1:
+                    out.append('O')
+                elif st is not None:
+                    r = step(cfg, st, op)
+                    if r.mask:
+                        out.append('O')
+                    st = None if r.stop else r.state
             out.append('E')
         return '\n'.join(out) + '\n'
 
-    def run(self, cfg, root, histories):
+    def run(self, cfg, root, histories, mode='reset'):
         """-> list (one per history) of (steps, status) with steps = [(result line, crit, obs text)],
-        setup steps removed"""
+        setup steps removed.  mode 'fork': one freshly forked child per history; mode 'reset': all
+        histories in one driver process that re-creates the default repository and cuts the search
+        path back before each history (see drv_repo.c).  A reset-mode batch in which the driver
+        dies (a crash takes the whole batch down) is re-run in fork mode, which isolates the history."""
         env = self.b.env()
         env.pop('G_DEBUG', None)
+        env['DRV_REPO_JOBS'] = '2'
         if cfg.env:
             env['GI_TYPELIB_PATH'] = ':'.join('%s/%s' % (root, d) for d in cfg.env)
-        p = subprocess.run([self.drv], input=self.script(cfg, root, histories).encode(), env=env,
+        body = self.script(cfg, root, histories)
+        p = subprocess.run([self.drv], input=('mode %s\n' % mode + body).encode(), env=env,
                            stdout=subprocess.PIPE, stderr=subprocess.PIPE)
+        self.last_mode = mode
+        if p.returncode != 0 and mode == 'reset':
+            self.fallbacks += 1
+            self.last_mode = 'fork'
+            p = subprocess.run([self.drv], input=('mode fork\n' + body).encode(), env=env,
+                               stdout=subprocess.PIPE, stderr=subprocess.PIPE)
         if p.returncode != 0:
             raise HarnessBroken('drv_repo exit %d: %s' % (p.returncode, p.stderr.decode('utf-8', 'replace')[-300:]))
         text = p.stdout.decode('utf-8', 'replace')
@@ -792,6 +835,7 @@ class Checker(object):
         self.cmp_cache = {}       # (state, mask, obs text) -> (diffs, dev)
         self.prefix = {}          # ops prefix -> (transcript of its last step, verdict)
         self.asan = False
+        self.mode = 'fork'
         self.stderr = ''          # driver stderr of the whole batch (sanitizer reports, assertion messages)
 
     def exp_obs(self, state):
@@ -808,7 +852,7 @@ class Checker(object):
             return
         seen.add(key)
         hist = hist[:i + 1]
-        case = {'config': cfg.as_json(), 'ops': [list(o) for o in hist], 'step': i, 'asan': self.asan,
+        case = {'config': cfg.as_json(), 'ops': [list(o) for o in hist], 'step': i, 'asan': self.asan, 'mode': self.mode,
                 'expected': expected, 'observed': observed}
         self.part.violation(key, '%s | setup=%s files=%s ops=%s' % (
             desc, cfg.setup, ' '.join('%s/%s-%s[%s]' % f for f in cfg.files) or '(none)',
@@ -820,8 +864,9 @@ class Checker(object):
         st = step(cfg, state, op)
         o = st.outcome
         if o.kind == 'unspec':
-            part.add(unspecified=1)
-            part.outcome(('unspec', o.reason[:40]))
+            if obs:            # counted once, in the history that ends with this step
+                part.add(unspecified=1)
+                part.outcome(('unspec', o.reason[:40]))
             return ('stop',)
         oc, rc = op_class(op), reason_class(o.reason)
         # divergences while some namespace is only lazily loaded share a few keys (one defect family)
@@ -837,6 +882,9 @@ class Checker(object):
             self.violation(hist, i, 'critical|%s|%s' % (oc, rc), '%s logged a critical/warning (%s)' % (op_text(op), crit),
                            'no critical', crit)
             return ('viol',)
+        if not obs:
+            # interior step, not observed here (it is the observed last step of its own history)
+            return ('stop',) if st.mask else ('ok', st.state)
         exp, rendered = self.exp_obs(st.state)
         if not (rendered is not None and rendered == obs):
             ck = (st.state, st.mask, obs)
@@ -875,7 +923,7 @@ class Checker(object):
         for i, op in enumerate(hist):
             if i >= len(steps):
                 break
-            pre = hist[:i + 1]
+            pre = (hist[:i + 1], bool(steps[i][2]))
             rec = self.prefix.get(pre)
             if rec is not None:
                 if rec[1][0] == 'viol':
@@ -907,9 +955,9 @@ class Checker(object):
 
 
 # --------------------------------------------------------------- exploration ---
-def placements(alphabet, maxfiles):
+def placements(alphabet, maxfiles, minfiles=0):
     out = []
-    for k in range(0, maxfiles + 1):
+    for k in range(minfiles, maxfiles + 1):
         for combo in itertools.combinations(alphabet, k):
             slots = set((f[0], f[1], f[2]) for f in combo)
             if len(slots) == len(combo):
@@ -966,13 +1014,13 @@ def symmetry_group(setup, alphabet, menu):
     return group
 
 
-def canonical_configs(setup, alphabet, menu, maxfiles):
+def canonical_configs(setup, alphabet, menu, maxfiles, minfiles=0):
     group = symmetry_group(setup, alphabet, menu)
     index = {f: i for i, f in enumerate(alphabet)}
     seen = set()
     out = []
     total = 0
-    for combo in placements(alphabet, maxfiles):
+    for combo in placements(alphabet, maxfiles, minfiles):
         total += 1
         best = None
         for dperm, nperm in group:
@@ -988,8 +1036,8 @@ def canonical_configs(setup, alphabet, menu, maxfiles):
 
 def bfs_histories(cfg, menu, depth):
     """Model BFS with state de-duplication.  -> (histories to run, #states, #edges).  Every edge
-    (state, op) appears as the last step of exactly one history; histories that are a strict
-    prefix of another one are dropped (their edge is validated inside the longer one)."""
+    (state, op) is the last step of exactly one history (the canonical path to the state, then
+    the operation); the full observation is taken after that last step."""
     s0 = cfg.initial()
     seen = {s0}
     frontier = [(s0, ())]
@@ -1006,9 +1054,7 @@ def bfs_histories(cfg, menu, depth):
                     seen.add(st.state)
                     nxt.append((st.state, h + (op,)))
         frontier = nxt
-    interior = set(h[:-1] for h in edges)
-    hists = [h for h in edges if h not in interior]
-    return hists, len(seen), len(edges)
+    return edges, len(seen), len(edges)
 
 
 def _keep_alive(b):
@@ -1022,7 +1068,7 @@ def _keep_alive(b):
 
 def _work(chunk):
     part = Part()
-    mode, asan, menu, depth, cfgs = chunk
+    mode, asan, xmode, menu, depth, cfgs = chunk
     pool = build_pool(cbuild.build(False))
     b = cbuild.build(asan)
     rn = Runner(b, pool, 'c17')
@@ -1035,12 +1081,32 @@ def _work(chunk):
             if mode == 'bfs':
                 hists, nstates, nedges = bfs_histories(cfg, menu, depth)
             else:
-                hists = list(itertools.product(menu, repeat=depth))
-                nedges = sum(len(menu) ** k for k in range(1, depth + 1))
+                hists = [h for k in range(1, depth + 1) for h in itertools.product(menu, repeat=k)]
+                nedges = len(hists)
                 nstates = nedges + 1      # no de-duplication: every history is its own state
-            res = rn.run(cfg, root, hists)
             ck = Checker(cfg, root, part)
-            ck.stderr, ck.asan = rn.last_stderr, asan
+            ck.asan = asan
+            if xmode == 'both':
+                # fresh forked process per history (authoritative) ...
+                res = rn.run(cfg, root, hists, 'fork')
+                ck.stderr, ck.mode = rn.last_stderr, 'fork'
+                part.add(fork_histories=len(hists))
+                # ... and the in-process reset used for the bulk of the exploration must agree with it
+                res2 = rn.run(cfg, root, hists, 'reset')
+                part.add(reset_histories=len(hists), evaluations=len(hists))
+                if rn.last_mode == 'reset':
+                    for h, t, t2 in zip(hists, res, res2):
+                        if t != t2 and all(_printable(x) for x in t[0] + t2[0]):
+                            ck.violation(h, len(h) - 1, 'mode|fresh process and in-process reset give different transcripts',
+                                         'history executed in a freshly forked process and after an in-process reset of the '
+                                         'default repository / search path produced different transcripts',
+                                         short(root, repr(t))[:400], short(root, repr(t2))[:400])
+                            break
+                    part.add(crosschecked_histories=len(hists))
+            else:
+                res = rn.run(cfg, root, hists, 'reset')
+                ck.stderr, ck.mode = rn.last_stderr, rn.last_mode
+                part.add(**{('reset_histories' if rn.last_mode == 'reset' else 'fork_histories'): len(hists)})
             for h, t in zip(hists, res):
                 ck.check(h, t)
             part.add(evaluations=len(hists), states=nstates, transitions=nedges)
@@ -1050,6 +1116,8 @@ def _work(chunk):
                              'ops': [op_text(o) for o in h],
                              'model': [step_trace(cfg, h)]})
             rn.cleanup_cfg(root)
+        if rn.fallbacks:
+            part.add(reset_batches_rerun_in_fork_mode=rn.fallbacks)
     finally:
         rn.close()
     return part.result()
@@ -1075,36 +1143,62 @@ def run(ctx):
     jobs = []
     bounds = {'namespaces': list(NSS), 'versions': list(VERS), 'directories': list(DIRS), 'setups': sorted(SETUPS),
               'menu': [op_text(o) for o in MENU]}
+    # (label, exploration, asan, execution, alphabet | explicit configurations, (min files, max files), depth)
+    # sized for the measured rate of this VM (about 5000 histories/s over all 16 cores, it saturates at ~8 workers)
     if not thorough:
-        plan = [('bfs', False, WIDE, 3, 2)]
+        plan = [('bfs-wide2', 'bfs', False, 'reset', WIDE, (0, 2), 2),
+                ('bfs-core3', 'bfs', False, 'reset', CORE, (3, 3), 2),
+                ('xcheck', 'bfs', False, 'both', XCHECK_QUICK, None, 2)]
     else:
         cbuild.build(True).driver('drv_repo')
-        plan = [('all', False, CORE, 4, 3), ('bfs', False, WIDE + WIDE_THOROUGH_EXTRA, 3, 3), ('bfs', True, CORE, 2, 2)]
-    for mode, asan, alphabet, maxfiles, depth in plan:
+        plan = [('all-core3', 'all', False, 'reset', CORE, (0, 3), 3),
+                ('bfs-wide3', 'bfs', False, 'reset', WIDE + WIDE_THOROUGH_EXTRA, (0, 3), 2),
+                ('bfs-asan', 'bfs', True, 'reset', CORE, (0, 2), 2),
+                ('xcheck', 'bfs', False, 'both', CORE, (0, 1), 2),
+                ('xcheck-family', 'bfs', False, 'both', XCHECK_QUICK, None, 2)]
+    stride = int(os.environ.get('VERIF_C17_STRIDE', '0') or 0)      # development aid only
+    for label, mode, asan, xmode, alphabet, nfiles, depth in plan:
         for setup in sorted(SETUPS):
-            cfgs, total, gsize = canonical_configs(setup, alphabet, MENU, maxfiles)
-            bounds['%s%s/%s' % (mode, '-asan' if asan else '', setup)] = {'file_alphabet': len(alphabet), 'max_files': maxfiles, 'max_ops': depth,
-                                               'placements': total, 'canonical_configurations': len(cfgs),
-                                               'symmetry_group': gsize, 'state_dedup': mode == 'bfs'}
-            stride = int(os.environ.get('VERIF_C17_STRIDE', '0') or 0)      # development aid only
-            if stride > 1:
-                cfgs = cfgs[::stride]
-                ctx.cap('VERIF_C17_STRIDE=%d: only every %d-th configuration' % (stride, stride))
-            per = 4 if mode == 'all' else 24
+            if nfiles is None:
+                cfgs = [c for st, c in alphabet if st == setup]
+                bounds['%s/%s' % (label, setup)] = {'configurations': len(cfgs), 'max_ops': depth, 'execution': xmode,
+                                                    'state_dedup': True}
+            else:
+                cfgs, total, gsize = canonical_configs(setup, alphabet, MENU, nfiles[1], nfiles[0])
+                bounds['%s/%s' % (label, setup)] = {'file_alphabet': len(alphabet), 'files': '%d..%d' % nfiles, 'max_ops': depth,
+                                                    'placements': total, 'canonical_configurations': len(cfgs),
+                                                    'symmetry_group': gsize, 'state_dedup': mode == 'bfs',
+                                                    'execution': xmode}
+                if stride > 1:
+                    cfgs = cfgs[::stride]
+                    ctx.cap('VERIF_C17_STRIDE=%d: only every %d-th configuration' % (stride, stride))
+            per = 2 if mode == 'all' else 1 if xmode == 'both' else 24
             for i in range(0, len(cfgs), per):
-                jobs.append((mode, asan, MENU, depth, [(setup, c) for c in cfgs[i:i + per]]))
-    ctx.set(rule='for every configuration (setup x placement of <= k files from the file alphabet, canonicalised under the '
-                 'renamings that leave setup, alphabet and menu invariant): quick = model BFS with state de-duplication to '
-                 'depth 2 over the %d-operation menu, every edge replayed; thorough = (all) every operation sequence of length '
-                 '3 without de-duplication over <= 4 files of the core alphabet + (bfs) de-duplicated BFS to depth 3 over the '
-                 'wide alphabet + (bfs-asan) depth-2 BFS over <= 2 core files with the ASan+UBSan build of library and driver.  Each history runs in a freshly forked child of drv_repo against typelibs compiled by the '
-                 'rebuilt g-ir-compiler; after every operation the full observation of all namespaces is compared with the '
-                 'reference model.  transitions = model edges, traces_validated = edges whose result and observation were '
-                 'compared as MUST, unspecified = edges the statement does not fix (executed, crash-checked only). '
-                 'non-trivial = every MUST edge' % len(MENU),
+                jobs.append((mode, asan, xmode, MENU, depth, [(setup, c) for c in cfgs[i:i + per]]))
+    ctx.set(rule='configuration = setup x placement of files from a file alphabet (canonicalised under the renamings that '
+                 'leave setup, alphabet and menu invariant; that group is trivial here). quick: model BFS with state '
+                 'de-duplication to depth 2 over the %d-operation menu, every edge replayed as the last step of its own '
+                 'history, over (bfs-wide2) every placement of <= 2 files of the 24-file WIDE alphabet and (bfs-core3) every '
+                 'placement of exactly 3 files of the 12-file CORE alphabet. thorough: (all-core3) every operation sequence of '
+                 'length 1..3 WITHOUT de-duplication over every placement of <= 3 CORE files (<= 4 files does not fit 10 minutes '
+                 'at the measured ~5000 histories/s), (bfs-wide3) depth-2 BFS over every placement of <= 3 files of WIDE + 6 '
+                 'more files, (bfs-asan) depth-2 BFS over <= 2 CORE files with the ASan+UBSan build. '
+                 'Execution "reset": all histories of a configuration run in one drv_repo process that, before each history, '
+                 'replaces the default repository by a new GIRepository object and cuts the search path back to what '
+                 'init_globals produced (fork costs 1.3-4 ms on this VM and does not scale over cores). Execution "both" '
+                 '(xcheck: the stated XCHECK_QUICK family of 12 configurations; in thorough also every placement of <= 1 CORE '
+                 'file): every history ALSO runs in a freshly forked child (fork without exec); the fresh-process transcript is '
+                 'the one compared with the model and the reset transcript must be identical to it. A reset batch whose driver '
+                 'dies is re-run in fork mode. The full observation of all namespaces is taken after the last operation of '
+                 'every history (and after interior steps whose model outcome leaves state open) and compared with the '
+                 'reference model; interior steps are compared on result and criticals. transitions = model edges, '
+                 'traces_validated = edges whose result and observation were compared as MUST, unspecified = edges the '
+                 'statement does not fix (executed, crash-checked only). non-trivial = every MUST edge' % len(MENU),
             bounds=bounds)
     found = []
-    for r in pmap(_work, rotate(jobs, ctx.seed)):
+    # the fork-heavy cross-check jobs first (long poles); the seed rotates the rest
+    jobs = [j for j in jobs if j[2] == 'both'] + rotate([j for j in jobs if j[2] != 'both'], ctx.seed)
+    for r in pmap(_work, jobs):
         found.extend(r.pop('violations'))
         ctx.merge(r)
     # simplest first, independent of the dispatch order: fewest files, shortest history
@@ -1138,7 +1232,8 @@ def replay(ctx, case):
         cfg = Config(case['config']['setup'], [tuple(f) for f in case['config']['files']])
         hist = tuple(tuple(o) for o in case['ops'])
         root = rn.materialise(cfg)
-        res = rn.run(cfg, root, [hist])
+        res = rn.run(cfg, root, [hist], case.get('mode') or 'fork')
+        print('execution: %s' % rn.last_mode)
         print('setup %s (GI_TYPELIB_PATH=%s; initial prepends %s)' % (cfg.setup, ':'.join(cfg.env) or '(unset)', list(cfg.pre)))
         for f in cfg.files:
             print('  file %s/%s-%s.typelib  contents: %s' % f)
